@@ -1833,13 +1833,30 @@ impl PhysicalPlanner {
                         );
                     }
                     if let Some((schema, batches)) = cache.get(&key) {
-                        let exec = MemoryTableExec::new(
+                        let exec: Arc<dyn PhysicalOperator> = Arc::new(MemoryTableExec::new(
                             &node.alias,
                             schema.clone(),
                             batches.clone(),
                             None,
-                        );
-                        return Ok(Arc::new(exec));
+                        ));
+                        // The cached rows carry the CTE body's bare column names. Like
+                        // the uncached path below, expose them under THIS reference's
+                        // alias: two references to one CTE (`c AS x JOIN c AS y`) are
+                        // otherwise indistinguishable above the join and `y.c1` resolves
+                        // to `x.c1` - only when the CTE is materialized, i.e. the shared
+                        // evaluation answered differently from the separate one.
+                        let want = plan_schema_to_arrow(&node.schema);
+                        let have = exec.schema();
+                        let differs = have.fields().len() == want.fields().len()
+                            && have
+                                .fields()
+                                .iter()
+                                .zip(want.fields())
+                                .any(|(h, w)| h.name() != w.name());
+                        if differs {
+                            return Ok(Arc::new(ProjectExec::rename(exec, &want)));
+                        }
+                        return Ok(exec);
                     }
                 }
                 // Not cached: the input's rows ARE the alias's rows, but its columns
